@@ -2199,6 +2199,17 @@ fn utf8_member(rng: &mut Rng) -> Vec<u8> {
     }
 }
 
+/// any bytes (sets and hash fields are binary safe since the fixes c9e4f2c / 8832ec4)
+fn any_member(rng: &mut Rng) -> Vec<u8> {
+    match rng.below(8) {
+        0 => vec![0xff],
+        1 => vec![0xfe, 0xff],
+        2 => vec![0xef, 0xbf, 0xbd],          // the lossy form of 0xff: must stay a DIFFERENT member
+        3 => vec![0x00, 0x80],
+        _ => utf8_member(rng),
+    }
+}
+
 fn set_sequence(d: &mut Dx, rng: &mut Rng) {
     let mut log: Vec<String> = Vec::new();
     let mut bad: Vec<(String, String)> = Vec::new();
@@ -2207,7 +2218,7 @@ fn set_sequence(d: &mut Dx, rng: &mut Rng) {
     let mut r: BTreeSet<Vec<u8>> = BTreeSet::new();
     let r0 = guard(|| {
         for _ in 0..rng.range(3, 40) {
-            let m = utf8_member(rng);
+            let m = any_member(rng);
             let key = SDS::new(m.clone());
             match rng.below(10) {
                 0..=3 => {
@@ -2277,7 +2288,7 @@ fn hash_sequence(d: &mut Dx, rng: &mut Rng) {
     let mut r: BTreeMap<Vec<u8>, Vec<u8>> = BTreeMap::new();
     let r0 = guard(|| {
         for _ in 0..rng.range(3, 40) {
-            let f = utf8_member(rng);
+            let f = any_member(rng);
             let key = SDS::new(f.clone());
             match rng.below(10) {
                 0..=4 => {
@@ -2316,7 +2327,7 @@ fn hash_sequence(d: &mut Dx, rng: &mut Rng) {
             let mut rvals: Vec<Vec<u8>> = r.values().cloned().collect();
             rvals.sort();
             let all: BTreeMap<Vec<u8>, Vec<u8>> = h.get_all().iter().map(|(k, v)| (k.as_bytes().to_vec(), v.as_bytes().to_vec())).collect();
-            let it: BTreeMap<Vec<u8>, Vec<u8>> = h.iter().map(|(k, v)| (k.as_bytes().to_vec(), v.as_bytes().to_vec())).collect();
+            let it: BTreeMap<Vec<u8>, Vec<u8>> = h.iter().map(|(k, v)| { let kb: &[u8] = k.as_ref(); (kb.to_vec(), v.as_bytes().to_vec()) }).collect();
             if h.len() != r.len() || h.is_empty() != r.is_empty() {
                 bad.push(("len".into(), format!("len() = {}, is_empty() = {}, reference {}", h.len(), h.is_empty(), r.len())));
             }
